@@ -1,3 +1,6 @@
+mod c20;
+mod util;
+
 fn main() {
-    vmon::run_main(&[]);
+    vmon::run_main(&[("C20", c20::run)]);
 }
